@@ -1011,6 +1011,16 @@ def generate(rng, tier):
         yield gen_case(rng)
 
 
+def extra_obligations():
+    """`_ExecutorWrapper.__call__` / `__method_call__` (the `asynchronous` wrapper) regenerated from /repo's asynchrony.py as MiniPy
+    terms: a fresh copy of the caller's context per call, the function – with the caller's arguments, the receiver first for the
+    method form – submitted exactly once to the configured executor on the configured loop or else the running one, to run inside
+    that copy; the submission's outcome handed on as it is; no field written"""
+    from harness import core, regen
+
+    return regen.check("wrap", core.REPO, core.LEAN)
+
+
 def corpus():
     base = "root=1 site=a1 sig=0 pos=i1 kw=k:i5 out=r:i2"
     return [
